@@ -21,6 +21,8 @@ CHECKS = {
  "C13": (E2, "Every method name of <=2 runes over 14 special runes (thorough: every single rune U+0000..U+10FFFF), 84 values of depth <=2 as Go values and as pre-encoded raw JSON with white space at every token boundary, ids of every JSON type, error objects with data: emitted through Client.Notify/Call/Batch, Server responses / error responses / Notify, and Response.MarshalJSON, captured on a raw channel and judged by an independent strict JSON tokenizer, a round trip through ParseRequests and every framing's Send. ParseRequests itself on every C02 input against the C02 classifier.", "encoding/json trusted for value comparison only (the validator is separate); default schedule", "DESIGN.md §5 C13"),
  "C14": (E2, "Every error built from the user-facing constructors (*Error x 33 codes x 3 messages x 6 data values; Errorf, Code.Err, custom coders, coders wrapping other errors, *Error, context sentinels and plain errors under 7 wrapper shapes of depth <=2) is returned by a handler of a real Server and observed at Client.Call; unmarshalable results; ErrorCode(c.Err())==c for c in [-70000,70000] and both int32 ends (thorough: every int32); WithData on every receiver/data combination. ErrorCode is additionally compared with its documented definition written independently.", "default schedule; errors.As/Is trusted", "DESIGN.md §5 C14"),
  "C17": (E2, "Every method name of length 1..4 (thorough 1..6) over {a,b,.,r,p,c,R,e-acute}, rpc.* names, rpc.serverInfo neighbours and one-edit neighbours of every registered name, called through a real Server for three assigners (Map on every boundary key; ServiceMap of depth 2 and 3 with empty, dotted and rpc service keys) and both DisableBuiltin settings; compared with a reference resolver written from the documentation; InboundRequest / ServerFromContext identities, Names() and rpc.serverInfo content.", "default schedule", "DESIGN.md §5 C17"),
+ "C15": (E2, "Function values generated with reflect.FuncOf/MakeFunc over 29 parameter types (scalars, slice, map, array, any, RawMessage, 9 struct shapes - tagged, json:\"-\", embedded tagged/untagged, unexported, nested, with a DisallowUnknownFields method - and pointers to each) x 5 result schemes x prescribed success/failure x SetStrict {off,on} x AllowArray {default,false,true} x 30 params texts, plus no-parameter and *jrpc2.Request forms; every call of the produced wrapper is compared with encoding/json decoding into the declared type after the documented array-to-field mapping. Rejection grammar: hand-written and generated non-conforming shapes.", "encoding/json and reflect trusted", "DESIGN.md §5 C15"),
+ "C16": (E2, "Positional/NewPos for arities 0..6 (every kind tuple up to arity 2, thorough 3, over 7 argument kinds; one representative above): exact-length arrays with null / wrong type at each index, n-1 and n+1 elements, objects over every subset of the names, unknown key, wrong value type, scalars, absent params; bad name lists; Args with every nil-slot mask and lengths n-1..n+1; Obj with every subset of keys present over value, slice, map and pointer targets.", "encoding/json and reflect trusted", "DESIGN.md §5 C16"),
 }
 ALL = [json.loads(l)["id"] for l in open(os.path.join(HERE, "properties.jsonl"))]
 PENDING = "check not built yet (work in progress in the order of DESIGN.md §10); nothing is claimed for it"
